@@ -55,6 +55,9 @@ func StartKeygenCommon(taproot bool, group curve.Curve, participants []party.ID,
 		}
 
 		refresh := true
+		// every session started from this function works on its own values: the captured arguments
+		// must stay what the caller passed, or a second session (a retry) would start from the first one's state
+		privateShare, publicKey := privateShare, publicKey
 		// the last round adds the fresh shares to this scalar: work on a copy, so that the caller's
 		// config keeps its share (and stays consistent) whatever becomes of the refresh
 		if privateShare != nil {
